@@ -817,8 +817,12 @@ class XmlDiffFormatter(BaseFormatter):
         if isinstance(tree, etree._ElementTree):
             tree = tree.getroot()
         patcher = patch.Patcher()
+        patcher._nsmap = {}
         if tree is not None:
             patcher._nsmap = {k: v for k, v in tree.nsmap.items() if k is not None}
+        # Prefixes in the paths are those of the left tree and of the
+        # InsertNamespace actions seen so far.
+        self._nsmap = patcher._nsmap
 
         actions = []
         for action in diff:
@@ -830,6 +834,9 @@ class XmlDiffFormatter(BaseFormatter):
 
     def _format_action(self, action):
         return "[%s]" % ", ".join(action)
+
+    def _find(self, tree, xpath):
+        return tree.xpath(xpath, namespaces=self._nsmap)[0]
 
     def handle_action(self, action, orig_tree):
         action_type = type(action)
@@ -850,11 +857,11 @@ class XmlDiffFormatter(BaseFormatter):
         if action.position == 0:
             yield "insert-first", action.target, "\n<%s/>" % action.tag
             return
-        sibling = orig_tree.xpath(action.target)[0][action.position - 1]
+        sibling = self._find(orig_tree, action.target)[action.position - 1]
         yield "insert-after", utils.getpath(sibling), "\n<%s/>" % action.tag
 
     def _handle_RenameAttrib(self, action, orig_tree):
-        node = orig_tree.xpath(action.node)[0]
+        node = self._find(orig_tree, action.node)
         value = node.attrib[action.oldname]
         value_text = "\n<@{0}>\n{1}\n</@{0}>".format(action.newname, value)
         yield "remove", f"{action.node}/@{action.oldname}"
@@ -864,8 +871,8 @@ class XmlDiffFormatter(BaseFormatter):
         if action.position == 0:
             yield "move-first", action.node, action.target
             return
-        node = orig_tree.xpath(action.node)[0]
-        target = orig_tree.xpath(action.target)[0]
+        node = self._find(orig_tree, action.node)
+        target = self._find(orig_tree, action.target)
         # Get the position of the previous sibling
         position = action.position - 1
         if node.getparent() is target:
